@@ -302,3 +302,32 @@ package diff
 //@ requires n != nil && vs_fresh(n)
 //@ modifies nothing
 //@ ensures result == n
+
+//@ func equalNodes
+//@ props C15
+//@ safety
+//@ pure
+//@ ensures a == nil && b == nil ==> result
+//@ ensures (a == nil) != (b == nil) ==> !result
+//@ ensures a != nil && b != nil ==> result == (a.Field == b.Field && a.IsArray == b.IsArray && a.TypeName == b.TypeName && equalNodes(a.ChildNode, b.ChildNode))
+//@ ensures a == b ==> result
+
+//@ func equalLocations
+//@ props C15
+//@ safety
+//@ pure
+//@ ensures result == (a.Method == b.Method && a.Response == b.Response && a.URL == b.URL && equalNodes(a.Node, b.Node))
+
+//@ func SpecDifference.Matches
+//@ props C15
+//@ safety
+//@ pure
+//@ ensures result == (sd.Code == other.Code && sd.Compatibility == other.Compatibility && sd.DiffInfo == other.DiffInfo && equalLocations(sd.DifferenceLocation, other.DifferenceLocation))
+//@ ensures sd == other ==> result
+
+//@ func SpecDifferences.Contains
+//@ props C15
+//@ safety
+//@ pure
+//@ ensures result == vs_any(func(i int) bool { return 0 <= i && i < len(sd) && sd[i].Matches(diff) })
+//@ loop 1 invariant vs_all(func(j int) bool { return 0 <= j && j < vs_done(1) ==> !sd[j].Matches(diff) })
